@@ -720,8 +720,9 @@ def oracle_ap2_channel_keys(ctx, rng):
         def encryption_keys(self, salt, out_info, in_info):
             import hashlib
 
-            ko = hashlib.sha256(("o|" + salt + "|" + out_info).encode()).digest()
-            ki = hashlib.sha256(("i|" + salt + "|" + in_info).encode()).digest()
+            # like the real HKDF derivation: ONE function of (salt, info) for both directions
+            ko = hashlib.sha256((salt + "|" + out_info).encode()).digest()
+            ki = hashlib.sha256((salt + "|" + in_info).encode()).digest()
             derived.append((salt, ko, ki))
             return ko, ki
 
@@ -767,6 +768,114 @@ def oracle_ap2_channel_keys(ctx, rng):
                          "salt = DataStream-Salt + announced seed", "receiver and client would derive different keys")
 
 
+def oracle_ap2_sealing_keys(ctx, rng):
+    """Every key pyatv SEALS under during one AirPlay 2 streaming session - control channel
+    (verify_connection), event channel replies (_setup_base), audio packets
+    (setup_audio_stream: the key announced as `shk`) - through the real AirPlayV2.setup().
+    Each of these ciphers starts its nonce counter at 0, so two of them under one key repeat
+    (key, nonce) pairs with different plaintexts.  Keys are derived by a stand-in for the
+    verifier that, like HKDF, is one function of (salt, info)."""
+    import hashlib
+    import plistlib
+
+    from pyatv.auth.hap_pairing import parse_credentials
+    from pyatv.protocols.airplay import auth as airplay_auth
+    from pyatv.protocols.raop.protocols import StreamContext, airplayv2
+    from pyatv.support.http import HttpConnection, HttpResponse
+    from harness.core import vloop
+
+    def scenario(secret):
+        log = []
+
+        class Verifier:
+            async def verify_credentials(self):
+                return True
+
+            def encryption_keys(self, salt, out_info, in_info):
+                ko = hashlib.sha256((secret + "|" + salt + "|" + out_info).encode()).digest()
+                ki = hashlib.sha256((secret + "|" + salt + "|" + in_info).encode()).digest()
+                log.append((salt, out_info, in_info, ko, ki))
+                return ko, ki
+
+        sealing = []
+        announced = []
+
+        async def fake_setup_channel(factory, verifier, address, port, salt, out_info, in_info):
+            ko, ki = verifier.encryption_keys(salt, out_info, in_info)
+            sealing.append(("event-channel", ko))
+            return FakeTransport(), factory(ko, ki)
+
+        class Rtsp:
+            session_id = 0x1234
+
+            def __init__(self):
+                self.connection = HttpConnection()
+                self.connection.transport = FakeTransport()
+                self.connection._remote_ip = "127.0.0.1"
+
+            async def setup(self, headers=None, body=None):
+                for st in (body or {}).get("streams", []):
+                    if "shk" in st:
+                        announced.append(bytes(st["shk"]))
+                return HttpResponse("RTSP", "1.0", 200, "OK", {}, plistlib.dumps(
+                    {"eventPort": 7001, "streams": [{"controlPort": 6001, "dataPort": 6000}]}, fmt=plistlib.FMT_BINARY))
+
+        async def run():
+            orig = (airplay_auth.pair_verify, airplayv2.setup_channel)
+            airplay_auth.pair_verify = lambda credentials, connection: Verifier()
+            airplayv2.setup_channel = fake_setup_channel
+            try:
+                context = StreamContext()
+                context.reset()
+                context.credentials = parse_credentials(None)
+                rtsp = Rtsp()
+                enabled = []
+                from pyatv.auth import hap_session as hs_mod
+                orig_enable = hs_mod.HAPSession.enable
+
+                def enable(self, output_key, input_key):
+                    enabled.append(bytes(output_key))
+                    return orig_enable(self, output_key, input_key)
+
+                hs_mod.HAPSession.enable = enable
+                try:
+                    proto = airplayv2.AirPlayV2(context, rtsp)
+                    await proto.setup(timing_server_port=5000, control_client_port=5001)
+                finally:
+                    hs_mod.HAPSession.enable = orig_enable
+                # the control channel's and the event channel's sessions were enabled with these keys
+                for k in enabled:
+                    if ("event-channel", k) not in sealing:
+                        sealing.append(("control-or-channel", k))
+                for k in announced:
+                    sealing.append(("audio", k))
+                if proto._cipher is None:
+                    sealing.append(("audio-cipher-missing", b""))
+            finally:
+                airplay_auth.pair_verify, airplayv2.setup_channel = orig
+            return sealing, announced
+
+        return vloop.run(run)
+
+    for i in range(ctx.scale(3, 20)):
+        secret = "s%d-%d" % (i, rng.randrange(1 << 30))
+        try:
+            sealing, announced = scenario(secret)
+        except Exception as e:  # noqa: BLE001
+            ctx.fail("ap2-sealing-keys:setup-raises", {"secret": secret}, type(e).__name__ + ": " + str(e)[:100], "session set up", "AirPlay 2 stream set-up raised")
+            return
+        ctx.case(["ap2-sealing-keys", secret, len(sealing)], len(sealing) >= 3)
+        if not announced or len(sealing) < 3:
+            ctx.fail("ap2-sealing-keys:incomplete", {"secret": secret, "ciphers": [n for n, _k in sealing]}, "fewer than three sealing ciphers observed",
+                     "control channel, event channel and audio stream keys", "the session did not set up its three encrypted channels")
+            continue
+        keys = [k for _n, k in sealing]
+        if len(set(keys)) != len(keys):
+            dup = sorted({n for n, k in sealing if keys.count(k) > 1})
+            ctx.fail("ap2-sealing-keys:ciphers-share-key", {"ciphers": dup}, "two sealing ciphers (both counting nonces from 0) use one key: %s" % dup,
+                     "a distinct key per sealing cipher", "nonce reuse: (key, nonce) pairs repeat between two channels of one AirPlay 2 session")
+
+
 def oracle_companion(ctx, rng):
     from cryptography.hazmat.primitives.ciphers.aead import ChaCha20Poly1305
     from pyatv.protocols.companion.connection import CompanionConnection, FrameType
@@ -807,6 +916,33 @@ def oracle_companion(ctx, rng):
         sent.append(w)
     if len(set(nonces)) != len(nonces):
         ctx.fail("companion:nonce-reuse", {"messages": len(nonces)}, "repeat", "all distinct", "nonce reused")
+    # receive side, frame sizes around and above 64 KiB (the length field has three bytes)
+    bigpeer = ChaCha20Poly1305(KEY_IN)
+    for sizes in ([65519, 3], [65520, 1], [65536, 70000, 2], [rng.randrange(65000, 200000), 5]):
+        bigs = [pattern(rng, n) for n in sizes]
+        bw = b""
+        for i, p_ in enumerate(bigs):
+            h_ = bytes([FrameType.E_OPACK.value]) + (len(p_) + 16).to_bytes(3, "big")
+            bw += h_ + bigpeer.encrypt(i.to_bytes(12, "little"), p_, h_)
+        bgot = []
+
+        class BL:
+            def frame_received(self, frame_type, data):
+                bgot.append(bytes(data))
+
+        bc = CompanionConnection(None, "h", 0)
+        bc.set_listener(BL())
+        bc.enable_encryption(KEY_OUT, KEY_IN)
+        bcuts = rng.cuts(len(bw), rng.choice([0, 1, 3]))
+        try:
+            for chunk in split_at(bw, bcuts):
+                bc.data_received(chunk)
+        except Exception as e:  # noqa: BLE001
+            bgot.append(("exc:" + type(e).__name__).encode())
+        ctx.case(["comp-oracle-recv-large", sizes, bcuts], True)
+        if bgot != bigs:
+            ctx.fail("companion:large-frame-roundtrip", {"sizes": sizes, "cuts": bcuts}, [len(x) for x in bgot], sizes,
+                     "Companion frames of 64 KiB or more from the peer are not delivered exactly")
     # receive with corruption: delivered non-empty payloads must be a subsequence of what was sent
     inpeer = ChaCha20Poly1305(KEY_IN)
     payloads = [pattern(rng, n) for n in (5, 300, 1, 1200)]
@@ -1222,6 +1358,7 @@ def run(ctx):
     oracle_hap_channel(ctx, rng.fork("oracle-hap-channel"))
     oracle_http_over_hap(ctx, rng.fork("oracle-http-hap"))
     oracle_ap2_channel_keys(ctx, rng.fork("oracle-ap2-keys"))
+    oracle_ap2_sealing_keys(ctx, rng.fork("oracle-ap2-sealing-keys"))
     oracle_companion(ctx, rng.fork("oracle-comp"))
     oracle_mrp(ctx, rng.fork("oracle-mrp"))
     oracle_mrp_send(ctx, rng.fork("oracle-mrp-send"))
